@@ -344,3 +344,77 @@ def toDecimal (t : FTy) (bits : Nat) : Option (Nat × Int) :=
   else computeNearestNormal t bits
 
 end LexVerif.Model.Dragonbox
+
+/-! ## literals
+
+The integer literals of the transcribed function bodies of algorithm.rs, per function in source order (doc comments
+excluded, `debug_assert!` arguments included), as named constants for the magic numbers. `Props/LiteralsModelWrite.lean`
+proves (a) each list equal to the list re-extracted from /repo on every run (`Gen.Literals.WriteFloatAlgorithm.k_*`) and
+(b) by `rfl` that the model functions above are their bodies instantiated with these constants. -/
+namespace LexVerif.Model.Dragonbox
+
+def litLog5Pow2Mul : Nat := 225799
+def litLog5Pow2Shift : Nat := 19
+def litLog10Pow2Mul : Nat := 315653
+def litLog10Pow2Shift : Nat := 20
+def litLog2Pow10Mul : Nat := 1741647
+def litLog2Pow10Shift : Nat := 19
+def litLog5Pow2M3Mul : Nat := 451597
+def litLog5Pow2M3Sub : Nat := 715764
+def litLog5Pow2M3Shift : Nat := 20
+def litLog10Pow2M43Mul : Nat := 1262611
+def litLog10Pow2M43Sub : Nat := 524031
+def litLog10Pow2M43Shift : Nat := 22
+def litDiv100Magic : Nat := 1374389535
+def litDiv100Shift : Nat := 37
+def litDiv1000Guard : Nat := 15534100272597517998
+def litDiv1000Magic : Nat := 2361183241434822607
+def litDiv1000Shift : Nat := 7
+def litRtzMagic : Nat := 12379400392853802749
+def litRtzBits : Nat := 90
+def litRtzS8 : Nat := 8
+def litIntegerMask32 : Nat := 4294967295
+
+def floorLog5Pow2Literals : List Nat := [litLog5Pow2Mul, litLog5Pow2Shift]
+def floorLog10Pow2Literals : List Nat := [litLog10Pow2Mul, litLog10Pow2Shift]
+def floorLog2Pow10Literals : List Nat := [litLog2Pow10Mul, litLog2Pow10Shift]
+def floorLog5Pow2MinusLog5_3Literals : List Nat := [litLog5Pow2M3Mul, litLog5Pow2M3Sub, litLog5Pow2M3Shift]
+def floorLog10Pow2MinusLog10_4Over3Literals : List Nat := [litLog10Pow2M43Mul, litLog10Pow2M43Sub, litLog10Pow2M43Shift]
+/-- `if exp == 2 { (n * MAGIC) >> 37 } else { pow32(exp, 10) … }` -/
+def divideByPow10_32Literals : List Nat := [2, litDiv100Magic, litDiv100Shift, 10]
+/-- `if exp == 3 && n_max <= GUARD { umul128_upper64(n, MAGIC) >> 7 } else { pow64(exp, 10) … }` -/
+def divideByPow10_64Literals : List Nat := [3, litDiv1000Guard, litDiv1000Magic, litDiv1000Shift, 10]
+/-- f32 body, then f64 body: `debug_assert!(mantissa != 0)`, `s = 0`, `rotr(·, 2)`, `MAX / 100`, `s += 2`, `rotr(·, 1)`,
+`MAX / 10`, `s |= 1`; f64: magic, `>> 64`, `(1 << (90 - 64)) - 1`, `== 0`, `>> (90 - 64)`, `s = 8`, the 32-bit loop, the 64-bit loop -/
+def removeTrailingZerosLiterals : List Nat :=
+  [0, 0, 2, 100, 2, 1, 10, 1,
+   0, litRtzMagic, 64, 1, litRtzBits, 64, 1, 0, litRtzBits, 64, litRtzS8, 2, 100, 2, 1, 10, 1,
+   0, 2, 100, 2, 1, 10, 1]
+def rotr32Literals : List Nat := [31, 32]
+def rotr64Literals : List Nat := [63, 64]
+def umul128Upper64Literals : List Nat := [64]
+def umul192Upper128Literals : List Nat := [64]
+def umul192Lower128Literals : List Nat := [64]
+def umul96Upper64Literals : List Nat := [32]
+def computeLeftEndpointLiterals : List Nat := [2, 64, 1]
+def computeRightEndpointLiterals : List Nat := [1, 64, 1]
+def computeRoundUpLiterals : List Nat := [64, 2, 1, 2]
+/-- f32 `(r >> 32, r as u32 == 0)`; f64 `lo == 0` -/
+def computeMulLiterals : List Nat := [32, 0, 0]
+/-- f32: `debug_assert!((1..64)…)`, `>> (64 - beta)`, `& 1`, `0xFFFF_FFFF & (r >> (32 - beta))`, `!= 0`, `== 0`; f64 likewise -/
+def computeMulParityLiterals : List Nat := [1, 64, 64, 1, litIntegerMask32, 32, 0, 0, 1, 64, 64, 1, 64, 0, 0]
+def computeDeltaLiterals : List Nat := [64, 1, 64, 1]
+def isRightEndpointLiterals : List Nat := [0, 5, 1, 1, 1, 1, 2, 10, 3]
+def isLeftEndpointLiterals : List Nat := [2, 5, 1, 2, 1, 1, 2, 10, 3]
+def countFactorsLiterals : List Nat := [0, 0, 0, 1]
+def preferRoundDownLiterals : List Nat := [2, 0]
+/-- `zi -= 1`, `xi += 1`, `zi / 10`, `significand * 10`, `minus_k + 1`, `bits + 4`, `- 2`, `bits + 2`, `- 2`,
+`significand -= 1`, `significand += 1` -/
+def computeNearestShorterLiterals : List Nat := [1, 1, 10, 10, 1, 4, 2, 2, 2, 1, 1]
+def computeNearestNormalLiterals : List Nat :=
+  [2, 0, 1, 1, 10, 1, 10, 1, 1, 1, 1, 0, 1, 1, 0, 1, 10, 2, 2, 2, 1, 0, 1]
+def toDecimalLiterals : List Nat := [0, 0, 0, 0]
+/-- `check_div_pow10!`: two `debug_assert!`s (`$exp + 2 < floor_log10_pow2(31)`, `pow64(10, $exp + 1)`), `(1u32 << shift) - 1` -/
+def checkDivPow10MacroLiterals : List Nat := [2, 31, 10, 1, 1, 1]
+
+end LexVerif.Model.Dragonbox
